@@ -695,3 +695,102 @@ pub fn circ_finish_empty() {
     vcover!(true, "end_reached");
     forget(r);
 }
+
+//@ harness props=C09,C10,C01 tier=thorough unwind=12 mem_gb=6 timeout=1200
+//@ bound: circular window D=4 cursor=0 full, copy length<=3, any dist
+#[cfg_attr(kani, kani::proof)]
+#[cfg_attr(kani, kani::stub(std::fmt::format, crate::verif_common::stub_format))]
+#[cfg_attr(kani, kani::stub(std::io::Error::is_interrupted, crate::verif_common::stub_not_interrupted))]
+pub fn circ_lz_full_d4_c0() {
+    circ_lz_full::<4, 0>()
+}
+
+//@ harness props=C09,C10,C01 tier=thorough unwind=12 mem_gb=6 timeout=1200
+//@ bound: circular window D=4 cursor=1 full, copy length<=3, any dist
+#[cfg_attr(kani, kani::proof)]
+#[cfg_attr(kani, kani::stub(std::fmt::format, crate::verif_common::stub_format))]
+#[cfg_attr(kani, kani::stub(std::io::Error::is_interrupted, crate::verif_common::stub_not_interrupted))]
+pub fn circ_lz_full_d4_c1() {
+    circ_lz_full::<4, 1>()
+}
+
+//@ harness props=C09,C10,C01 tier=thorough unwind=12 mem_gb=6 timeout=1200
+//@ bound: circular window D=5 cursor=2 full, copy length<=3, any dist
+#[cfg_attr(kani, kani::proof)]
+#[cfg_attr(kani, kani::stub(std::fmt::format, crate::verif_common::stub_format))]
+#[cfg_attr(kani, kani::stub(std::io::Error::is_interrupted, crate::verif_common::stub_not_interrupted))]
+pub fn circ_lz_full_d5_c2() {
+    circ_lz_full::<5, 2>()
+}
+
+//@ harness props=C09,C10,C01 tier=thorough unwind=12 mem_gb=6 timeout=1200
+//@ bound: circular window D=5 cursor=4 full, copy length<=3, any dist
+#[cfg_attr(kani, kani::proof)]
+#[cfg_attr(kani, kani::stub(std::fmt::format, crate::verif_common::stub_format))]
+#[cfg_attr(kani, kani::stub(std::io::Error::is_interrupted, crate::verif_common::stub_not_interrupted))]
+pub fn circ_lz_full_d5_c4() {
+    circ_lz_full::<5, 4>()
+}
+
+//@ harness props=C09,C10,C01 tier=thorough unwind=12 mem_gb=6 timeout=1200
+//@ bound: circular window D=6 cursor=0 full, copy length<=3, any dist
+#[cfg_attr(kani, kani::proof)]
+#[cfg_attr(kani, kani::stub(std::fmt::format, crate::verif_common::stub_format))]
+#[cfg_attr(kani, kani::stub(std::io::Error::is_interrupted, crate::verif_common::stub_not_interrupted))]
+pub fn circ_lz_full_d6_c0() {
+    circ_lz_full::<6, 0>()
+}
+
+//@ harness props=C09,C10,C01 tier=thorough unwind=12 mem_gb=6 timeout=1200
+//@ bound: circular window D=6 cursor=5 full, copy length<=3, any dist
+#[cfg_attr(kani, kani::proof)]
+#[cfg_attr(kani, kani::stub(std::fmt::format, crate::verif_common::stub_format))]
+#[cfg_attr(kani, kani::stub(std::io::Error::is_interrupted, crate::verif_common::stub_not_interrupted))]
+pub fn circ_lz_full_d6_c5() {
+    circ_lz_full::<6, 5>()
+}
+
+//@ harness props=C09,C10,C01 tier=thorough unwind=12 mem_gb=6 timeout=1200
+//@ bound: circular window D=2 cursor=0 full, copy length<=3, any dist
+#[cfg_attr(kani, kani::proof)]
+#[cfg_attr(kani, kani::stub(std::fmt::format, crate::verif_common::stub_format))]
+#[cfg_attr(kani, kani::stub(std::io::Error::is_interrupted, crate::verif_common::stub_not_interrupted))]
+pub fn circ_lz_full_d2_c0() {
+    circ_lz_full::<2, 0>()
+}
+
+//@ harness props=C09,C01 tier=thorough unwind=12 mem_gb=4 timeout=600
+//@ bound: last_n/last_or on circular window D=4 cursor=3 full, any dist
+#[cfg_attr(kani, kani::proof)]
+#[cfg_attr(kani, kani::stub(std::fmt::format, crate::verif_common::stub_format))]
+#[cfg_attr(kani, kani::stub(std::io::Error::is_interrupted, crate::verif_common::stub_not_interrupted))]
+pub fn circ_last_full_d4_c3() {
+    circ_last_full::<4, 3>()
+}
+
+//@ harness props=C09,C01 tier=thorough unwind=12 mem_gb=4 timeout=600
+//@ bound: last_n/last_or on circular window D=5 cursor=0 full, any dist
+#[cfg_attr(kani, kani::proof)]
+#[cfg_attr(kani, kani::stub(std::fmt::format, crate::verif_common::stub_format))]
+#[cfg_attr(kani, kani::stub(std::io::Error::is_interrupted, crate::verif_common::stub_not_interrupted))]
+pub fn circ_last_full_d5_c0() {
+    circ_last_full::<5, 0>()
+}
+
+//@ harness props=C09,C01 tier=thorough unwind=12 mem_gb=4 timeout=600
+//@ bound: last_n/last_or on circular window D=1 cursor=0 full, any dist
+#[cfg_attr(kani, kani::proof)]
+#[cfg_attr(kani, kani::stub(std::fmt::format, crate::verif_common::stub_format))]
+#[cfg_attr(kani, kani::stub(std::io::Error::is_interrupted, crate::verif_common::stub_not_interrupted))]
+pub fn circ_last_full_d1_c0() {
+    circ_last_full::<1, 0>()
+}
+
+//@ harness props=C09,C01 tier=thorough unwind=12 mem_gb=4 timeout=600
+//@ bound: last_n/last_or on circular window D=6 cursor=3 full, any dist
+#[cfg_attr(kani, kani::proof)]
+#[cfg_attr(kani, kani::stub(std::fmt::format, crate::verif_common::stub_format))]
+#[cfg_attr(kani, kani::stub(std::io::Error::is_interrupted, crate::verif_common::stub_not_interrupted))]
+pub fn circ_last_full_d6_c3() {
+    circ_last_full::<6, 3>()
+}
